@@ -28,6 +28,10 @@ func readRules(input io.Reader) ([]rule, error) {
 		}
 		// Trim spaces
 		pattern = strings.TrimSpace(pattern)
+		// Ignore lines that are blank once trimmed
+		if len(pattern) == 0 {
+			continue
+		}
 		// Ignore comments
 		if pattern[0] == '#' {
 			continue
@@ -38,6 +42,10 @@ func readRules(input io.Reader) ([]rule, error) {
 		if pattern[0] == '!' {
 			rule.negated = true
 			pattern = pattern[1:]
+			// A lone "!" negates nothing
+			if len(pattern) == 0 {
+				continue
+			}
 			// Mark all previous rules as having negations after it
 			for i := currentRuleIndex; i >= 0; i-- {
 				if rules[i].negationsAfter {
